@@ -38,6 +38,8 @@ KINDS = {
     "scf.for": "for",
     "scf.if": "if",
     "scf.yield": "yield",
+    "scf.while": "while",
+    "scf.condition": "cond",
     "func.return": "ret",
     "func.call": "call",
     "llvm.call": "call",
@@ -105,6 +107,13 @@ def tokenize_asm(op) -> tuple[list[str], list[int]]:
     m = re.match(r"csrr\s+\$0\s*,\s*(0x[0-9a-fA-F]+|\d+)$", s)
     if m:
         return ["csrr"], [int(m.group(1), 0)]
+    if re.match(r"csrw\s+\$0\s*,\s*\$1$", s):
+        return ["csrw2"], []
+    if re.match(r"csrr\s+\$0\s*,\s*\$1$", s):
+        return ["csrr2"], []
+    m = re.match(r"\.insn r CUSTOM_(\d), (0x[0-9a-fA-F]+|\d+), (0x[0-9a-fA-F]+|\d+)\s*,\s*x0,\s*\$0,\s*\$1$", s)
+    if m:
+        return ["insn"], [int(m.group(1)), int(m.group(2), 0), int(m.group(3), 0)]
     if s == "nop":
         return ["nop"], []
     m = re.match(r"\.insn r CUSTOM_(\d), (0x[0-9a-fA-F]+|\d+), (0x[0-9a-fA-F]+|\d+),\s*\$0,\s*\$1,\s*\$2$", s)
@@ -194,7 +203,7 @@ class Exporter:
             tag, w = type_tag(op.results[0].type)
         return {
             "k": kind, "n": name, "r": [self.vid(r) for r in op.results], "a": operands,
-            "iv": iv, "sv": sv, "end": 0, "mid": 0, "ba": [], "w": self.width_map(w), "fx": fx,
+            "iv": iv, "sv": sv, "end": 0, "mid": 0, "ba": [], "ba2": [], "w": self.width_map(w), "fx": fx,
             "pure": bool(is_side_effect_free(op)),
         }
 
@@ -204,7 +213,7 @@ class Exporter:
             self.ops.append(rec)
             me = len(self.ops)
             self.opmap[op] = me
-            if rec["k"] in ("yield", "lyield"):
+            if rec["k"] in ("yield", "lyield", "cond"):
                 rec["mid"] = head
             if op.regions:
                 first = True
@@ -217,6 +226,9 @@ class Exporter:
                             first = False
                         elif rec["k"] == "if":
                             rec["mid"] = len(self.ops) + 1
+                        elif rec["k"] == "while":
+                            rec["mid"] = len(self.ops) + 1
+                            rec["ba2"] = [self.vid(a) for a in b.args]
                         self.walk_block(b, me)
                     if not region.blocks and rec["k"] == "if":
                         rec["mid"] = len(self.ops) + 1
